@@ -24,6 +24,20 @@ func runPathCase(text string, failAt int, failPanic string) string {
 	if first != second {
 		return "RERUN-DIFFERS: " + first + " || " + second
 	}
+	if failAt == 0 && strings.Contains(text, "deref") {
+		// the same machine twice on one tree that keeps its entries and hands out the paths it stores: the second run
+		// finds the tree as the first one did
+		tree := &mockTree{hash: true, keeps: true}
+		var outs [2]string
+		for i := range outs {
+			tree.calls, tree.ncalls = nil, 0
+			res := xpath.NewCtxFromCurrent(gocontext.Background(), mach, &mockEntry{t: tree}).Run()
+			outs[i] = strings.Join(tree.calls, ";") + " => " + showResult(res)
+		}
+		if outs[0] != first || outs[1] != first {
+			return "KEEPING-TREE-DIFFERS: " + outs[0] + " || " + outs[1] + " || isolated: " + first
+		}
+	}
 	return first
 }
 
